@@ -121,13 +121,17 @@ theorem inv_setSequenceChar (i j : Int) (c : Byte) (b : Bag) (h : Inv b) : Inv (
       · rename_i r hr _
         exact h.transfer (by simp only []; rw [keys_set _ _ _ _ hr]) rfl (Nat.le_refl _)
 
-theorem inv_trimSequences (n : Int) (fs : Bool) (b : Bag) (h : Inv b) : Inv (trimSequences n fs b).1 := by
-  unfold trimSequences
-  split
-  · exact h
-  · split
-    · exact h
-    · exact (inv_mapSeqs (fun s => if fs then s.drop n.toNat else s.take (s.length - n.toNat)) b h).congr rfl rfl rfl
+theorem inv_trimSequences (n : Int) (fs : Bool) (b : Bag) (h : Inv b) (r : Bag × Bool)
+    (hr : trimSequences n fs b = some r) : Inv r.1 := by
+  unfold trimSequences at hr
+  split at hr
+  · simp only [Option.some.injEq] at hr; subst hr; exact h
+  · split at hr
+    · simp only [Option.some.injEq] at hr; subst hr; exact h
+    · split at hr
+      · simp at hr
+      · simp only [Option.some.injEq] at hr; subst hr
+        exact (inv_mapSeqs (fun s => if fs then s.drop n.toNat else s.take (s.length - n.toNat)) b h).congr rfl rfl rfl
 
 theorem inv_appendToSequence (nm : String) (s : Seq) (b : Bag) (h : Inv b) : Inv (appendToSequence nm s b).1 := by
   unfold appendToSequence
